@@ -227,6 +227,59 @@ def op_mdd(w, ins):
                     return x & (mw.mask ^ y)
             ok, v = call(w, m.apply, sym, a[0], b[0])
             result(ok, v, ops.conn(_T, cn, a[1], b[1]), f'apply {sym!r}', ins.get('keep', True))
+    elif k == 'probe':
+        # directed interleaving (P-cache steering, DESIGN 4.3): an operand that
+        # nobody references is used once, collected, its number is recycled
+        # by another function, and the same triple of integers is asked again
+        u = pick(ins['a'])
+        if u is None:
+            return 'skip'
+        sym = ins['sym'] if ins['sym'] in ops.SYM2CONN else 'and'
+        cn = ops.SYM2CONN[sym]
+
+        class _T2:
+            mask = mw.mask
+            implies = staticmethod(lambda x, y: (mw.mask ^ x) | y)
+            equiv = staticmethod(lambda x, y: mw.mask ^ (x ^ y))
+            diff = staticmethod(lambda x, y: x & (mw.mask ^ y))
+
+        def lit_node(level, bits):
+            lv = level % mw.n
+            kids = [1 if (bits >> v) & 1 else -1 for v in range(mw.sizes[lv])]
+            tt = 0
+            for v, c in enumerate(kids):
+                if c == 1:
+                    tt |= mw.lit(lv, v)
+            return lv, kids, tt
+        lv, kids, gt = lit_node(ins['level'], ins['bits'])
+        ok, g = call(w, m.find_or_add, lv, *kids)
+        if not ok:
+            w.fail('exception:' + g[0], f'MDD find_or_add raised {g[1]}', tags)
+        if m.ref(g) > 0 or abs(g) == 1:
+            return 'skip'          # somebody holds it: no recycling possible
+        ok, v = call(w, m.apply, sym, g, u[0])
+        result(ok, v, ops.conn(_T2, cn, gt, u[1]), f'apply {sym!r} (probe, first)')
+        ok, v = call(w, m.collect_garbage)
+        expect_ok(w, ok, v, 'C15', 'MDD collect_garbage')
+        if abs(g) in m:
+            mdd_check(w, mw, after_full_gc=True)
+            return
+        w.stats['mdd_probe_freed'] += 1
+        for bits2 in ins['bits2']:
+            lv2, kids2, ht = lit_node(ins['level'], bits2)
+            if kids2 == kids:
+                continue
+            ok, h = call(w, m.find_or_add, lv2, *kids2)
+            if not ok:
+                w.fail('exception:' + h[0], f'MDD find_or_add raised {h[1]}', tags)
+            if abs(h) == abs(g):
+                w.stats['mdd_probe_recycled'] += 1
+                # the same integers as in the first call: `g` itself, which
+                # now is `h` or its complement
+                want = ops.conn(_T2, cn, ht if g == h else mw.mask ^ ht, u[1])
+                ok, v = call(w, m.apply, sym, g, u[0])
+                result(ok, v, want, f'apply {sym!r} (probe, same integers after recycling)', keep=False)
+                break
     elif k == 'drop':
         if not mw.slots:
             return 'skip'
@@ -342,14 +395,31 @@ def gen_mdd(w, r, cfg):
         n = r.randint(1, 3)
         return dict(op='mdd', k='new', sizes=[r.choice([2, 2, 3, 4, 5]) for _ in range(n)],
                     level=_ri(r, 8), bits=r.randrange(1, 31))
-    k = r.choice(['new', 'new', 'foa', 'foa', 'ite', 'ite', 'apply', 'apply', 'apply', 'drop', 'drop', 'dup', 'gc'])
+    k = r.choice(['new', 'new', 'foa', 'foa', 'ite', 'ite', 'apply', 'apply', 'apply', 'drop', 'drop', 'drop',
+                  'dup', 'gc', 'gc', 'redo', 'redo', 'probe', 'probe'])
     if len(w.mdd.slots) > 10:
         k = r.choice(['drop', 'drop', 'gc', k])
+    hist = getattr(w.mdd, 'hist', None)
+    if hist is None:
+        hist = w.mdd.hist = []
+    if k == 'redo':
+        # the same operand slots again: after a collection and number reuse
+        # in between, a remembered answer would be stale
+        if hist:
+            d = dict(hist[-1 - min(int(r.random() ** 2 * len(hist)), len(hist) - 1)])
+            d['keep'] = r.random() < 0.3
+            return d
+        k = 'apply'
     d = dict(op='mdd', k=k, a=_ri(r), b=_ri(r), c=_ri(r), level=_ri(r, 8), bits=r.randrange(1, 31),
+             bits2=[r.randrange(1, 31) for _ in range(4)], sym=r.choice(ops.ALL_BINARY_SYMS),
              kids=[_ri(r) for _ in range(5)], keep=r.random() < 0.8)
     if k == 'apply':
         x = r.random()
         d['sym'] = r.choice(ops.UNARY) if x < 0.1 else ('ite' if x < 0.2 else r.choice(ops.ALL_BINARY_SYMS))
+    if k in ('apply', 'ite'):
+        hist.append(d)
+        if len(hist) > 30:
+            del hist[0]
     return d
 
 
